@@ -149,7 +149,10 @@ func Generate(rng *rand.Rand, p Profile) []Step {
 		case "":
 			return g.steps
 		case "begin":
-			g.emit(Step{Op: "begin", Actor: g.nextTx, Level: p.Levels[rng.Intn(len(p.Levels))]})
+			st := Step{Op: "begin", Actor: g.nextTx, Level: p.Levels[rng.Intn(len(p.Levels))]}
+			// the default level is the one a caller gets who passes none
+			st.NoLevel = st.Level == 1 && g.nextTx%2 == 1
+			g.emit(st)
 			g.nextTx++
 		case "set", "setreader", "create":
 			tag, n := g.value()
